@@ -7,10 +7,11 @@
                          `ScratchSlot.reset_slot_numbering` is called only by `__probe_info`,
                          `_new_abi_instance_from_storage` and `Router._cleaning_context`, to REWIND]
   * `nextSubroutineId`  [`SubroutineDefinition.nextSubroutineId`, subroutine.py:99]
-  * `currentProto`      [`SubroutineEval._current_proto`, subroutine.py:921; written only by
-                         `_frame_pointer_context` (subroutine.py:840-845), which has NO try/finally;
-                         read by `alloc_abstract_var` (abstractvar.py:59), i.e. by every ABI value
-                         constructor]
+  * `currentProto`      [`SubroutineEval._current_proto`, subroutine.py:925; written only by
+                         `_frame_pointer_context` (subroutine.py:840-849), which restores it in a
+                         `finally:` (commit 6bedda4; before that a raising body left it set, see
+                         `evaluateOld`); read by `alloc_abstract_var` (abstractvar.py:59), i.e. by
+                         every ABI value constructor]
   * per definition: the declaration caches `option_map[False/True]` and the `has_return/type_of`
     memo of `_SubroutineDeclByOption` (subroutine.py:25-88)
   * `templates`         [`Tmpl._session_templates`, tmpl.py:23 — written by every `Tmpl`, read by
@@ -188,10 +189,23 @@ def entryProto (d : Name) (info : DefInfo) : Flavour → Option Proto
   | .scratch => none
   | .fp => some ⟨d, if info.hasOutput then 1 else 0⟩
 
-/-- `SubroutineEval.evaluate` (subroutine.py:1008-1098): the new declaration, or `none` when the
-    body raised.  `_frame_pointer_context` is `tmp, cur = cur, proto; yield; cur = tmp` with no
-    `finally`: when the body raises the assignment after the `yield` never runs. -/
+/-- `SubroutineEval.evaluate`: the new declaration, or `none` when the body raised.
+    `_frame_pointer_context` (subroutine.py:840-849) is
+    `tmp, cur = cur, proto; try: yield; finally: cur = tmp`: the marker is restored also when the
+    body raises (since commit 6bedda4; the behaviour before that commit is `evaluateOld`). -/
 def evaluate (s : State) (d : Name) (info : DefInfo) (fl : Flavour) : Option Decl × State :=
+  let pre := allocSlots (preSlots info fl) s
+  let tmp := pre.2.currentProto
+  let s2 := { pre.2 with currentProto := entryProto d info fl }
+  let vs := allocSlots info.vars s2
+  let as := allocAbis info.abis vs.2
+  if info.raises fl then (none, { as.2 with currentProto := tmp })
+  else (some ⟨pre.1 ++ vs.1 ++ storageSlots as.1, as.1⟩, { as.2 with currentProto := tmp })
+
+/-- REGRESSION WITNESS — `SubroutineEval.evaluate` as it was before commit 6bedda4:
+    `_frame_pointer_context` had no `try/finally`, so when the body raised the assignment after the
+    `yield` never ran and `_current_proto` kept the proto installed on entry. -/
+def evaluateOld (s : State) (d : Name) (info : DefInfo) (fl : Flavour) : Option Decl × State :=
   let pre := allocSlots (preSlots info fl) s
   let tmp := pre.2.currentProto
   let s2 := { pre.2 with currentProto := entryProto d info fl }
@@ -199,6 +213,19 @@ def evaluate (s : State) (d : Name) (info : DefInfo) (fl : Flavour) : Option Dec
   let as := allocAbis info.abis vs.2
   if info.raises fl then (none, as.2)
   else (some ⟨pre.1 ++ vs.1 ++ storageSlots as.1, as.1⟩, { as.2 with currentProto := tmp })
+
+/-- REGRESSION WITNESS — `d.get_declaration_by_option(fl)` on the code before commit 6bedda4 -/
+def evalDeclarationOld (s : State) (d : Name) (fl : Flavour) : State × Bool :=
+  match s.lookup d with
+  | some (.sub ds) =>
+    match ds.decl fl with
+    | some _ => (s, false)
+    | none =>
+      let r := evaluateOld s d ds.info fl
+      match r.1 with
+      | some c => (r.2.bind d (.sub (ds.setDecl fl (some c))), false)
+      | none => (r.2, true)
+  | _ => (s, false)
 
 /-- `get_declaration_by_option` (subroutine.py:46-56): `none` = the evaluation raised -/
 def getDeclaration (s : State) (d : Name) (ds : DefState) (fl : Flavour) : Option DefState × State :=
@@ -211,7 +238,7 @@ def getDeclaration (s : State) (d : Name) (ds : DefState) (fl : Flavour) : Optio
     | none => (none, r.2)
 
 /-- `__probe_info` (subroutine.py:58-66): evaluate, forget the declaration unless it was there
-    before, REWIND the slot counter.  Nothing is rewound when the evaluation raises. -/
+    before, REWIND the slot counter.  The counter is not rewound when the evaluation raises. -/
 def probe (s : State) (d : Name) (ds : DefState) (fl : Flavour) : Option DefState × State :=
   let start := s.nextSlotId
   let pre := (ds.decl fl).isSome
